@@ -821,7 +821,7 @@ def KC8(vc):
 # =============================================================================================== invocation.is_async_fn
 def _returns_awaitable(fn):
     """ORACLE, independent of `inspect`: what invoke() needs to know -- does calling fn give something to await?
-    (the sample functions take no required arguments and have no effects)"""
+    (the sample functions take no required arguments and have no effects; a coroutine is closed unstarted)"""
     import inspect
     r = fn()
     aw = inspect.isawaitable(r)
@@ -843,9 +843,11 @@ def _plain_functions():
 
 
 def _wrap(kind, inner):
-    """one layer over `inner`: a partial, a decorated sync wrapper (functools.wraps: passes the result through), or a
-    decorated async wrapper that awaits the wrapped coroutine function"""
+    """one layer over `inner`: a partial; a decorated (functools.wraps) sync wrapper, which passes the result through;
+    a decorated `async def` wrapper that awaits the wrapped coroutine function ('awaiter'); a decorated universal
+    `async def` wrapper that works for both kinds of wrapped functions (awaits the result if there is something to await)"""
     import functools
+    import inspect
     if kind == 'partial':
         return functools.partial(inner, extra=1)
     if kind == 'wrapper':
@@ -853,24 +855,28 @@ def _wrap(kind, inner):
         def wrapper(*a, **kw):
             return inner(*a, **kw)
         return wrapper
+    if kind == 'awaiter':
+        @functools.wraps(inner)
+        async def awaiter(*a, **kw):
+            return await inner(*a, **kw)
+        return awaiter
 
     @functools.wraps(inner)
-    async def awaiter(*a, **kw):
-        return await inner(*a, **kw)
-    return awaiter
+    async def async_wrapper(*a, **kw):
+        r = inner(*a, **kw)
+        return (await r) if inspect.isawaitable(r) else r
+    return async_wrapper
 
 
-LAYERS = ('partial', 'wrapper', 'awaiter')
+LAYERS = ('partial', 'wrapper', 'async wrapper', 'awaiter')
 
 
 @harness('KC10', targets=f'{INVOCATION}.is_async_fn', props=['C11', 'C09', 'C20'],
          clauses=['total', 'none_is_not_async', 'plain_functions', 'partials_and_wrappers_are_transparent', 'awaitable_iff_async'],
          canaries=['canary.everything_is_sync', 'canary.never_recurses'],
          assumes=['handlers are functions, lambdas, bound methods, classes/builtins, or functools.partial objects / decorated '
-                  '(functools.wraps) wrappers of such ("Both sync & async functions are supported, so as their partials. Also, '
-                  'decorated wrappers and lambdas are recognized"); a sync function does not return an awaitable; a decorated '
-                  '`async def` wrapper wraps (awaits) a coroutine function -- an async wrapper around a SYNC function is '
-                  'classified by the wrapped one, i.e. as sync (see the report: outside the domain)',
+                  '(functools.wraps) sync or async wrappers of such ("Both sync & async functions are supported, so as their '
+                  'partials. Also, decorated wrappers and lambdas are recognized"); a sync function does not return an awaitable',
                   'scenario "chains": wrapper chains of depth <= 3 over 6 kinds of plain functions (the recursion runs for real)'],
          trusted=['inspect.iscoroutinefunction (stdlib) on plain functions -- checked here against actually calling them'])
 def KC10(vc):
@@ -879,9 +885,13 @@ def KC10(vc):
       none_is_not_async   None (no function) is not async;
       plain_functions     a function / lambda / bound method / class is async iff calling it yields an awaitable;
       partials_and_wrappers_are_transparent   (induction step, the recursive call taken by contract -- any depth) a
-                          functools.partial is what its .func is, a decorated wrapper (__wrapped__) is what the wrapped
-                          function is: the recursion asks about exactly that object, once, and passes the answer on;
+                          functools.partial is what its .func is, a decorated SYNC wrapper (__wrapped__) is what the wrapped
+                          function is: the recursion asks about exactly that object, once, and passes the answer on; a
+                          decorated `async def` wrapper is async whatever it wraps (calling it gives a coroutine);
       awaitable_iff_async (the recursion for real, chains of depth <= 3) is_async_fn(fn) <=> fn(...) returns an awaitable.
+    KNOWN FINDING F-C11-1: an `async def` wrapper decorated with functools.wraps over a SYNC function is classified as sync:
+    invoke() runs it in a thread, nobody awaits the coroutine, the handler's body never runs and the coroutine object is
+    taken for the handler's result.
     """
     import functools
     ld = vc.load(INVOCATION, 'is_async_fn')
@@ -906,7 +916,7 @@ def KC10(vc):
             inner = functools.partial(inner)        # (functools.partial flattens partial-of-partial by itself)
         answer = vc.bool('is_async_fn(inner), by contract')
         if layer == 'awaiter':
-            vc.assume(answer, 'an async wrapper wraps a coroutine function (see assumes)')
+            vc.assume(answer, 'an awaiter awaits what it wraps: a coroutine function')
         asked = []
 
         def recursive_call(x):
@@ -916,8 +926,12 @@ def KC10(vc):
         vc.used('invocation.is_async_fn (recursive call)', 'KC10')
         fn = _wrap(layer, inner)
         got = call_total(vc, 'total', ld.fn, fn)
-        vc.ensure('partials_and_wrappers_are_transparent', len(asked) == 1 and asked[0] is inner)
-        vc.ensure('partials_and_wrappers_are_transparent', Iff(got, answer))
+        if layer in ('partial', 'wrapper'):
+            vc.ensure('partials_and_wrappers_are_transparent', len(asked) == 1 and asked[0] is inner)
+            vc.ensure('partials_and_wrappers_are_transparent', Iff(got, answer))
+        else:
+            vc.ensure('partials_and_wrappers_are_transparent', Iff(got, True),
+                      excuse={'F-C11-1': And(layer == 'async wrapper', Not(answer))})
         vc.canary('canary.never_recurses', not asked)
         vc.canary('canary.everything_is_sync', Not(got))
         return ('layer', layer, inner_kind, got)
@@ -925,13 +939,103 @@ def KC10(vc):
     fn = plain[base_kind]
     is_async = _returns_awaitable(fn)
     depth = vc.nondet(4, 'depth of the chain: 0..3')
-    chain = []
+    chain, finding = [], False
     for i in range(depth):
-        options = LAYERS if is_async else LAYERS[:2]          # (an awaiter only over a coroutine function)
+        options = LAYERS if is_async else LAYERS[:3]          # (an awaiter only over a coroutine function)
         layer = options[vc.nondet(len(options), f'layer {i + 1}')]
         chain.append(layer)
+        if layer == 'async wrapper' and not is_async:
+            finding = True                                    # F-C11-1: async wrapper over a sync function
+        is_async = is_async or layer == 'async wrapper'
         fn = _wrap(layer, fn)
     got = call_total(vc, 'total', ld.fn, fn)
-    vc.ensure('awaitable_iff_async', got is is_async and got is _returns_awaitable(fn))
+    vc.ensure('awaitable_iff_async', got is is_async and got is _returns_awaitable(fn), excuse={'F-C11-1': finding})
     vc.canary('canary.everything_is_sync', got is False)
     return ('chain', base_kind, tuple(chain), got)
+
+
+# =============================================================================================== invocation.context
+class _Boom(Exception):
+    pass
+
+
+@harness('KC14', targets=f'{INVOCATION}.context', props=['C11', 'C02', 'C09'],
+         clauses=['set_in_order_before_the_body', 'restored_in_reverse_after_the_body', 'errors_pass_through', 'real_contextvars_restored'],
+         canaries=['canary.body_always_runs', 'canary.nothing_to_restore'],
+         trusted=['contextlib.contextmanager (kept on the extracted generator)', 'contextvars.ContextVar.set/reset: reset(token) '
+                  'restores the value the variable had before the set() that made the token'],
+         assumes=['0-3 (variable, value) pairs, given as a list or as a one-shot iterator (the loops run natively)'])
+def KC14(vc):
+    """
+    invocation.context(values) -- how the handler, its cause, the sub-handler registry/lifecycle/settings travel to
+    @kopf.subhandler / kopf.execute / kopf.adopt while a handler runs (execution.invoke_handler, subhandling_context):
+      set_in_order_before_the_body   every variable is set to ITS value, in the given order, before the body runs;
+      restored_in_reverse_after_the_body   when the body is left -- normally or by ANY exception (handler errors,
+                          cancellation) -- every variable that was set is reset, with its own token, in reverse order, so
+                          the values of an enclosing handler (sub-handlers nest) come back; also when setting itself fails
+                          half-way: the ones already set are restored and the body is not run;
+      errors_pass_through the body's (or the failing set's) exception propagates unchanged, nothing is swallowed;
+      real_contextvars_restored   with real ContextVars: inside, the new values; after, the outer ones (or unset again).
+    """
+    import asyncio
+    import contextvars
+    ld = vc.load(INVOCATION, 'context')
+    if vc.nondet(2, 'recorded stub variables / real ContextVars') == 1:
+        a, b = contextvars.ContextVar('a'), contextvars.ContextVar('b')
+        a.set('outer-a')
+        seen = []
+        body_error = [None, _Boom('body')][vc.nondet(2, 'the body: returns / raises')]
+        try:
+            with ld.fn([(a, 'inner-a'), (b, 'inner-b')]):
+                seen.append((a.get(), b.get('unset')))
+                with ld.fn(iter([(a, 'innermost-a')])):
+                    seen.append((a.get(), b.get('unset')))
+                seen.append((a.get(), b.get('unset')))
+                if body_error is not None:
+                    raise body_error
+        except _Boom as e:
+            vc.ensure('errors_pass_through', e is body_error)
+        vc.ensure('real_contextvars_restored', seen == [('inner-a', 'inner-b'), ('innermost-a', 'inner-b'), ('inner-a', 'inner-b')]
+                  and a.get() == 'outer-a' and b.get('unset') == 'unset')
+        return ('real', body_error is not None)
+
+    n = vc.nondet(4, 'number of variables: 0..3')
+    failing = vc.nondet(n + 1, 'which set() fails: none / the i-th')      # 0 = none
+    errors = [None, _Boom('body'), asyncio.CancelledError(), KeyboardInterrupt()]
+    body_error = errors[vc.nondet(len(errors), 'the body: returns / raises an error / is cancelled / BaseException')]
+    set_error = _Boom('set')
+
+    class Var:
+        def __init__(self, i): self.i = i
+        def set(self, val):
+            if failing == self.i + 1:
+                raise set_error
+            vc.emit('set', self.i, val)
+            return ('token', self.i)
+        def reset(self, token):
+            vc.emit('reset', self.i, token)
+    vars_ = [Var(i) for i in range(n)]
+    vals = [Opaque(f'value{i}') for i in range(n)]
+    pairs = list(zip(vars_, vals))
+    values = pairs if vc.nondet(2, 'a list / a one-shot iterator') == 0 else iter(pairs)
+    raised = None
+    try:
+        with ld.fn(values):
+            vc.emit('body')
+            if body_error is not None:
+                raise body_error
+    except BaseException as e:
+        if isinstance(e, (PathEnd, Unsupported)):
+            raise
+        raised = e
+    tr = list(vc.trace)
+    k = n if failing == 0 else failing - 1                    # how many were set
+    want_sets = [('set', i, vals[i]) for i in range(k)]
+    want_resets = [('reset', i, ('token', i)) for i in reversed(range(k))]
+    body = [('body',)] if failing == 0 else []
+    vc.ensure('set_in_order_before_the_body', tr[:k + len(body)] == want_sets + body)
+    vc.ensure('restored_in_reverse_after_the_body', tr[k + len(body):] == want_resets)
+    vc.ensure('errors_pass_through', raised is (set_error if failing else body_error))
+    vc.canary('canary.body_always_runs', ('body',) in tr)
+    vc.canary('canary.nothing_to_restore', not any(ev[0] == 'reset' for ev in tr))
+    return ('stub', n, failing, type(raised).__name__)
